@@ -2,6 +2,8 @@ package e1
 
 import (
 	"fmt"
+	"os"
+	"path/filepath"
 	"sort"
 	"strings"
 
@@ -18,7 +20,8 @@ func isGlobPat(s string) bool { return strings.ContainsAny(s, "*?[{") }
 // file listed explicitly and matched by a glob of the same target, two globs matching the same
 // files - is built; then the order of every declaration list (inputs, exclude_inputs, outputs,
 // dependencies, tags, targets and aliases within a BUILD file) is permuted, nothing else, and it
-// is built again, with one worker and with many. Observed at the boundary: the names under
+// is built again, with one worker and with many, and finally with the BUILD files read by the
+// YAML loader instead of the JSON loader. Observed at the boundary: the names under
 // cache/target (the keys themselves) must be the same set, and no command may run.
 func DeclOrderPart(run *report.Run, st *Setup, n int) {
 	Parallel(n, func(i int) {
@@ -115,6 +118,16 @@ func DeclOrderPart(run *report.Run, st *Setup, n int) {
 			if round == 1 {
 				env.Cfg.NumWorkers = 1 + (env.Cfg.NumWorkers % 8)
 				_ = env.M.WriteConfig(env.Cfg)
+			}
+			if round == 2 {
+				// the same definitions in another BUILD-file format: JSON is YAML (flow style), so
+				// the files are simply handed to the YAML loader under their YAML name
+				for _, pkg := range s.Packages() {
+					d := filepath.Join(env.WS, filepath.FromSlash(pkg))
+					if os.Rename(filepath.Join(d, "BUILD.json"), filepath.Join(d, "BUILD.yaml")) == nil {
+						run.Count("build_files_moved_to_the_yaml_loader", 1)
+					}
+				}
 			}
 			obs := env.RunBuild(BuildOpts{})
 			run.Eval(1)
